@@ -140,6 +140,26 @@ func initZZ() {
 		fr.e.Outputs = append(fr.e.Outputs, strArg(a[0]))
 		return nil
 	})
+	Z("FuncName", func(fr *frame, a []value) value {
+		i := a[0].(iface)
+		switch f := i.v.(type) {
+		case *ssa.Function:
+			if f == nil {
+				return ""
+			}
+			if f.Pkg != nil && f.Signature.Recv() == nil {
+				return f.Pkg.Pkg.Path() + "." + f.Name()
+			}
+			return f.String()
+		case *closure:
+			if f != nil && f.Fn != nil {
+				return f.Fn.String()
+			}
+		}
+		return ""
+	})
+	Z("MaxDecisions", func(fr *frame, a []value) value { fr.e.MaxForks = int(asInt64(a[0])); return nil })
+	Z("UnwindIsViolation", func(fr *frame, a []value) value { fr.e.unwindViolation = strArg(a[0]); return nil })
 	Z("Steps", func(fr *frame, a []value) value { return int(fr.e.steps) })
 	Z("Stdout", func(fr *frame, a []value) value { return strings.Join(fr.e.stdout, "") })
 	Z("Opaque", func(fr *frame, a []value) value { return fr.e.opaque })
